@@ -55,6 +55,11 @@ CHECKS = {
                 text='Partial (stated): (1) IndexRepresentative gives congruent numberings of one edge/triangle/quadrilateral the same key and non-congruent ones different keys, CongruencySampler/Mapping codes describe the vertex and edge correspondence, for ALL distinct 64-bit indices. (2) For 1- and 2-cell meshes of quad/tria/hexa/tetra with one (thorough: two) sub-entities numbered in any congruent way and/or the last cell in any orientation preserving numbering, the refined mesh has the formula counts, consistent local faces, unique entities, 1/2 cells per facet, the Euler characteristic, and exactly the pattern children per coarse entity (parents identified by generic-position coordinates); refined parts map one-to-one onto children of their parents and commute with topology; custom mesh permutations keep mesh and part targets consistent.',
                 note='Trusted: clang-14 IR, irsym executor (validated against ASan native build each run), z3 5.1.0, cvc5 1.0 (--solve-bv-as-int=sum, unsat answers only), FaceIndexMapping tables as definition. NOT covered: larger meshes and shipped mesh files, deeper refinement, volume/orientation of children, BoundaryFactory, topology deduction from vertex lists (only its key function), MeshNode/charts/adapt, 3D cell parts with topology (documented as not implemented: loud abort).',
                 ref='3/C10'),
+    'C12': dict(cat='model_checking', engine='E3',
+                technique='own IR symbolic executor on the real RootMeshNode::extract_patch / refine_unique for every rank of a symbolic cell-to-rank assignment (solver-guided forking over all assignments without empty patch), on the real PatchHaloSplitter with fully symbolic 64-bit target indices (z3 oracle from the definition), and on Parti2Lvl with symbolic rank count',
+                text='Partial (stated): on small meshes of all four shapes (incl. disconnected patches, vertex-only contacts in 2D and 3D) and 1..3 (thorough 4) ranks: every cell in exactly one patch, injective patch maps that pull back the base mesh, neighbour lists = patches sharing a vertex (symmetric, complete), the two halos of each pair list the same shared base entities in the same order and exactly the shared ones, also after one joint refinement (entities identified by vertex coordinates). PatchHaloSplitter (two-layer partitioning): for all symbolic child / halo target sets within the size profiles the created child halo is exactly the ordered list of parent-halo entities contained in both children. Parti2Lvl: exactly the requested number of non-empty patches on the lowest sufficient level, or failure iff no two-level partition exists, for every rank count <= 48 (64).',
+                note='Trusted: clang-14 IR, irsym executor (rb-tree model for std::map, atomics with single-thread semantics; validated against an ASan native build each run), z3 5.1.0. Outside: MPI distribution, PartiDomainControl glue (only compiled with MPI), PartiIterative and external partitioners, PatchMeshPartSplitter for boundary parts, more than one joint refinement, larger meshes.',
+                ref='3/C12'),
     'C13': dict(cat='other', engine='E2',
                 technique='bounded symbolic execution of the real VectorMirror / TupleMirror / Gate templates on symbolic vectors, buffers and scaling factors for every ordered index list within the bound; gather/scatter, frequency and emulated-synchronisation identities decided by z3',
                 text='Partial (stated): process-local building blocks only. For every ordered index list on vectors of length <= 3 (thorough 4), scalar and blocked, with buffer offsets: gather copies exactly the mirrored entries, scatter_axpy adds alpha*buffer exactly there; TupleMirror (2, 3 components) uses consistent buffer ranges; Gate::compile frequencies are 1/(1+#mirrors containing the dof) for dofs shared by up to 3 (4) neighbours, weighted dot and from_1_to_0 follow; an emulated sync of three patches around a cross point sums each shared dof exactly once.',
